@@ -114,8 +114,8 @@ func runC02(c *mon.Ctx) {
 			continue
 		}
 		A, errA := signWith(vcA.x, vcA.a, k, true)
-		B, errB := signWith(vcB.x, vcB.a, k, true)   // same key, other payload
-		C, errC := signWith(vcA.x, vcA.a, k2, true)  // other key, same payload
+		B, errB := signWith(vcB.x, vcB.a, k, true)  // same key, other payload
+		C, errC := signWith(vcA.x, vcA.a, k2, true) // other key, same payload
 		altAlg := keys.AlgNames[(job+1+g.R.Intn(6))%7]
 		k3 := keys.New(altAlg, 2)
 		D, errD := signWith(vcB.x, vcB.a, k3, true) // other algorithm
